@@ -17,9 +17,11 @@
 package appmanifest
 
 import (
+	"bytes"
 	"crypto"
 	"crypto/x509"
 	"encoding/base64"
+	"encoding/hex"
 	"errors"
 	"fmt"
 
@@ -83,6 +85,9 @@ func Verify(manifest []byte) (*ManifestSignature, error) {
 	if sig.Certificate == nil {
 		return nil, errors.New("leaf x509 certificate not found")
 	}
+	if err := checkPublisher(root, license, sig.Certificate, secondary.Certificates); err != nil {
+		return nil, err
+	}
 	ts := &pkcs9.TimestampedSignature{Signature: sig}
 	if tse := license.FindElement("r:issuer/Signature/Object/as:Timestamp"); tse != nil {
 		blob, err := base64.StdEncoding.DecodeString(tse.Text())
@@ -107,6 +112,50 @@ func Verify(manifest []byte) (*ManifestSignature, error) {
 		Hash:            primary.Hash,
 		PublicKeyToken:  token,
 	}, nil
+}
+
+// checkPublisher compares the publisher fields that Sign always writes -- the single top-level publisherIdentity
+// element and the X509SubjectName of the license -- with the signing certificate. issuerKeyHash can only be judged
+// if the signature carries a certificate named like the leaf's issuer (the lookup certloader's Issuer() does); if it
+// carries none, the field is left alone.
+func checkPublisher(root, license *etree.Element, leaf *x509.Certificate, certs []*x509.Certificate) error {
+	var ident *etree.Element
+	for _, token := range root.Child {
+		if elem, ok := token.(*etree.Element); ok && elem.Tag == "publisherIdentity" {
+			if ident != nil {
+				return errors.New("multiple publisherIdentity elements")
+			}
+			ident = elem
+		}
+	}
+	if ident == nil {
+		return errors.New("missing publisherIdentity")
+	}
+	name := x509tools.FormatPkixName(leaf.RawSubject, x509tools.NameStyleMsOsco)
+	if name2 := unprefixedAttr(ident, "name"); name2 != name {
+		return fmt.Errorf("publisherIdentity name mismatch: expected %q, got %q", name, name2)
+	}
+	subj := license.FindElement("r:grant/as:AuthenticodePublisher/as:X509SubjectName")
+	if subj == nil {
+		return errors.New("missing X509SubjectName")
+	} else if name2 := subj.Text(); name2 != name {
+		return fmt.Errorf("X509SubjectName mismatch: expected %q, got %q", name, name2)
+	}
+	keyHash := unprefixedAttr(ident, "issuerKeyHash")
+	found := false
+	for _, cert := range certs {
+		if !bytes.Equal(cert.RawSubject, leaf.RawIssuer) {
+			continue
+		}
+		found = true
+		if aki, err := x509tools.SubjectKeyID(cert.PublicKey); err == nil && hex.EncodeToString(aki) == keyHash {
+			return nil
+		}
+	}
+	if found {
+		return fmt.Errorf("publisherIdentity issuerKeyHash mismatch: got %s", keyHash)
+	}
+	return nil
 }
 
 func VerifyTimestamp(timestamp *pkcs7.ContentInfoSignedData, encryptedDigest []byte, extraCerts []*x509.Certificate) (*pkcs9.CounterSignature, error) {
